@@ -501,3 +501,36 @@ def rule_c02_r6(model: Model) -> RuleResult:
                            "the input is accepted as it is because it compares equal to an expected value, without a test of its kind: "
                            "True and 1.0 equal 1 (and hash alike), so from_data(True, Literal[1]) is True and from_data(1.0, Literal[1]) is 1.0")
     return r
+
+
+def rule_c02_r7(model: Model) -> RuleResult:
+    """The value judged is the value given: a pass never replaces its input by something that does not derive from it."""
+    r = RuleResult('C02-R7', 'no pass replaces its input by a value that does not derive from it (a default, an empty mapping ...) '
+                             'before judging it', floor=3)
+    zone = conversion_zone(model)
+    for cls in family(model):
+        for f in zone[cls.qualname]:
+            if f.name == 'into_data' or not isinstance(f.node, ast.FunctionDef) or len(f.params) < 2:
+                continue
+            cfg = cfg_of(model, f)
+            nz = Normalizer(model, f, cfg)
+            vp = f.params[1]
+            if nz.param_map.get(vp) != 'VAL':
+                continue
+            for d in cfg.reaching().by_name.get(vp, []):
+                if d.kind == 'param':
+                    continue
+                r.instances += 1
+                r.analysed.add(f.qualname)
+                if d.kind not in ('assign', 'walrus') or d.value is None:
+                    form = f'<{d.kind}>'
+                else:
+                    form = nz._project(d.value, d.path, d.node, 0)
+                r.sample({'function': f.qualname, f'{vp} :=': form[:100]})
+                if 'VAL' in form:
+                    r.ok()
+                else:
+                    r.fail(f.qualname, f"{vp} = {form[:80]}", f.loc(d.stmt or d.node.ast or f.node),
+                           "the input is replaced by a value that has nothing to do with it before its kind is tested: a value of the wrong "
+                           "kind (e.g. '' / 0 / None where a mapping is required) is judged as if it were the replacement")
+    return r
